@@ -460,6 +460,9 @@ class BasinProxyFeature(np.lib.mixins.NDArrayOperatorsMixin):
                 indices = self.basinmap
             else:
                 indices = self.basinmap[index]
+            if np.any(np.isnan(self.feat_obj.shape[1:])):
+                # event-wise data of varying length (contour)
+                return [self.feat_obj[idx] for idx in indices]
             out_arr = np.empty((len(indices),) + self.feat_obj.shape[1:],
                                dtype=self.feat_obj.dtype)
             for ii, idx in enumerate(indices):
